@@ -197,7 +197,7 @@ func (x *c10Run) e2eBuild(o *c10Origin, id, dir string) (*Client, *Request) {
 
 func TestVerif_C10_e2e(t *testing.T) {
 	s := verifh.New(t, "C10", "e2e",
-		"real client + real HTTP/1.1 transport against a loopback origin following a script (status 200/404/429/500/503, abrupt close = transport error, context cancelled in flight, undecodable body); random request shapes as in lane wire (all body kinds, multipart files, cookies/headers/query/form at both levels), dump-each-request and trace on in most cases, retry count {-1,0,1,2,5}; oracle: every capture of one call byte-identical at the origin, count bound, dump holds one attempt; event log compared with the model; non-trivial = at least one retry")
+		"real client + real HTTP/1.1 transport against a loopback origin following a script (status 200/404/429/500/503, abrupt close = transport error, context cancelled in flight, undecodable body); random request shapes as in lane wire (all body kinds, multipart files from every content source incl. caller-written GetFileContent with a shared reader, buffered and streamed, cookies/headers/query/form at both levels), dump-each-request and trace on in most cases, retry count {-1,0,1,2,5}; oracle: every capture of one call byte-identical at the origin, count bound, dump holds one attempt; event log compared with the model; non-trivial = at least one retry")
 	r := s.Rand()
 	o := newC10Origin()
 	defer o.srv.Close()
@@ -315,7 +315,7 @@ func TestVerif_C10_e2e(t *testing.T) {
 		if ok && len(caps) != len(x.wires) {
 			ok, why = false, fmt.Sprintf("%d round trips but %d requests at the origin", len(x.wires), len(caps))
 		}
-		for k := 1; ok && k < len(caps); k++ {
+		for k := 1; ok && !tc.brokenContract() && k < len(caps); k++ {
 			if caps[k] != caps[0] {
 				ok, why = false, fmt.Sprintf("origin: attempt %d differs from attempt 0:\n%s\n---\n%s", k, caps[0], caps[k])
 			}
